@@ -181,7 +181,7 @@ func (x *Exec) predCall(env *CEnv, e CCall) (Term, bool) {
 	for i, p := range pd.Params {
 		c.names[p] = x.ceval(env, e.Args[i], "")
 	}
-	t, err := x.cevalSafe(c, pd.Body, "Bool")
+	t, err := x.cevalSafe(c, pd.Body, "")
 	if err != nil {
 		x.cfail(env, "predicate %s: %v", e.Fn, err)
 	}
